@@ -408,57 +408,74 @@ def withWindow (n : Nat) (stream : Bytes) (eShort : Err) (f : Bytes → Except E
   if stream.length < n then { res := .error eShort, rest := [] }
   else { res := f (stream.take n), rest := stream.drop n }
 
-/-- `NewPacket(fh, version, r)`: `stream` = what follows the fixed header -/
-def newPacket (ptype flags remLen version : Nat) (stream : Bytes) : DecOut :=
-  let fail (e : Err) : DecOut := { res := .error e, rest := stream }
+/-- what `NewPacket` + `New<Type>Packet` decide from the fixed header alone, before any body byte is read:
+    refuse (`fail`), read the `RemainLength` bytes and parse them (`window`; the error is what the caller returns when
+    `io.ReadFull` hits the end of the stream), or finish without reading (`done`: PINGREQ, PINGRESP, zero-length AUTH) -/
+inductive Plan
+  | fail (e : Err)
+  | window (eShort : Err) (f : Bytes → Except Err Packet)
+  | done (p : Packet)
+
+/-- the dispatch of `NewPacket(fh, version, r)` and the flag / length checks of the constructors -/
+def planOf (ptype flags remLen version : Nat) : Plan :=
   if ptype = tCONNECT then
-    if flags != 0 then fail .malformed
-    else withWindow remLen stream .io (fun w => (unpackConnect w).map .connect)
+    if flags != 0 then .fail .malformed
+    else .window .io (fun w => (unpackConnect w).map .connect)
   else if ptype = tCONNACK then
-    if flags != 0 then fail .malformed
-    else withWindow remLen stream .malformed (fun w => (unpackConnack w).map .connack)
+    if flags != 0 then .fail .malformed
+    else .window .malformed (fun w => (unpackConnack w).map .connack)
   else if ptype = tPUBLISH then
     let dup := bit flags 3
     let qos := flags / 2 % 4
-    if qos = 0 && dup then fail .malformed
-    else if qos > 2 then fail .malformed
-    else withWindow remLen stream .malformed (fun w => (unpackPublish version dup qos (flags % 2 = 1) w).map .publish)
+    if qos = 0 && dup then .fail .malformed
+    else if qos > 2 then .fail .malformed
+    else .window .malformed (fun w => (unpackPublish version dup qos (flags % 2 = 1) w).map .publish)
   else if ptype = tPUBACK then
-    withWindow remLen stream .malformed (fun w => (unpackAck tPUBACK version remLen w).map .puback)
+    .window .malformed (fun w => (unpackAck tPUBACK version remLen w).map .puback)
   else if ptype = tPUBREC then
-    withWindow remLen stream .malformed (fun w => (unpackAck tPUBREC version remLen w).map .pubrec)
+    .window .malformed (fun w => (unpackAck tPUBREC version remLen w).map .pubrec)
   else if ptype = tPUBREL then
-    withWindow remLen stream .malformed (fun w => (unpackPubrel remLen w).map .pubrel)
+    .window .malformed (fun w => (unpackPubrel remLen w).map .pubrel)
   else if ptype = tPUBCOMP then
-    withWindow remLen stream .malformed (fun w => (unpackAck tPUBCOMP version remLen w).map .pubcomp)
+    .window .malformed (fun w => (unpackAck tPUBCOMP version remLen w).map .pubcomp)
   else if ptype = tSUBSCRIBE then
-    if flags != 2 then fail .malformed
-    else withWindow remLen stream .malformed (fun w => (unpackSubscribe version w).map .subscribe)
+    if flags != 2 then .fail .malformed
+    else .window .malformed (fun w => (unpackSubscribe version w).map .subscribe)
   else if ptype = tSUBACK then
-    if flags != 0 then fail .malformed
-    else withWindow remLen stream .malformed (fun w => (unpackSuback version w).map .suback)
+    if flags != 0 then .fail .malformed
+    else .window .malformed (fun w => (unpackSuback version w).map .suback)
   else if ptype = tUNSUBSCRIBE then
-    if flags != 2 then fail .malformed
-    else withWindow remLen stream .malformed (fun w => (unpackUnsubscribe version w).map .unsubscribe)
+    if flags != 2 then .fail .malformed
+    else .window .malformed (fun w => (unpackUnsubscribe version w).map .unsubscribe)
   else if ptype = tUNSUBACK then
-    if flags != 0 then fail .malformed
-    else withWindow remLen stream .malformed (fun w => (unpackUnsuback version w).map .unsuback)
+    if flags != 0 then .fail .malformed
+    else .window .malformed (fun w => (unpackUnsuback version w).map .unsuback)
   else if ptype = tPINGREQ then
-    if flags != 0 then fail .malformed
-    else if remLen != 0 then fail .malformed
-    else { res := .ok .pingreq, rest := stream }
+    if flags != 0 then .fail .malformed
+    else if remLen != 0 then .fail .malformed
+    else .done .pingreq
   else if ptype = tPINGRESP then
-    if flags != 0 then fail .malformed
-    else if remLen != 0 then fail .malformed
-    else { res := .ok .pingresp, rest := stream }
+    if flags != 0 then .fail .malformed
+    else if remLen != 0 then .fail .malformed
+    else .done .pingresp
   else if ptype = tDISCONNECT then
-    if flags != 0 then fail .malformed
-    else withWindow remLen stream .malformed (fun w => (unpackDisconnect version remLen w).map .disconnect)
+    if flags != 0 then .fail .malformed
+    else .window .malformed (fun w => (unpackDisconnect version remLen w).map .disconnect)
   else if ptype = tAUTH then
-    if flags != 0 then fail .malformed
-    else if remLen = 0 then { res := .ok (.auth { code := 0, props := none }), rest := stream }
-    else withWindow remLen stream .malformed (fun w => (unpackAuth w).map .auth)
-  else fail .protocol
+    if flags != 0 then .fail .malformed
+    else if remLen = 0 then .done (.auth { code := 0, props := none })
+    else .window .malformed (fun w => (unpackAuth w).map .auth)
+  else .fail .protocol
+
+/-- carry the plan out on the stream that follows the fixed header -/
+def runPlan (remLen : Nat) (stream : Bytes) : Plan → DecOut
+  | .fail e => { res := .error e, rest := stream }
+  | .window eShort f => withWindow remLen stream eShort f
+  | .done p => { res := .ok p, rest := stream }
+
+/-- `NewPacket(fh, version, r)`: `stream` = what follows the fixed header -/
+def newPacket (ptype flags remLen version : Nat) (stream : Bytes) : DecOut :=
+  runPlan remLen stream (planOf ptype flags remLen version)
 
 /-- `Reader.ReadPacket()` with `r.version = version` on the byte stream `bs` -/
 def readPacket (version : Nat) (bs : Bytes) : DecOut :=
